@@ -42,8 +42,8 @@ def run_script(task, script, expect=None, changed=0, stats=None, seen=None):
     rec = ExpansionRecorder()
     viol = None
     try:
+        rec.activate()
         P = pc(domain=dom)
-        rec.attach(P)
         if "C03" in which:
             check_tree_index(P, "after construction")
         trail = []
